@@ -2,6 +2,7 @@ package main
 
 import (
 	"bytes"
+	"context"
 	"encoding/json"
 	"errors"
 	"fmt"
@@ -69,6 +70,10 @@ func runApCase(raw json.RawMessage, w *TraceWriter) {
 			r = int(rem)
 		}
 		w.Ev("dt", "readable", c.Readable, "rem", r)
+		// the generic transport has no life cycle of its own: always open, Open / Flush / Close do nothing and succeed
+		e1, e2, e3 := t.Open(), t.Flush(context.Background()), t.Close()
+		rem2 := t.RemainingBytes()
+		w.Ev("dtlife", "isopen", t.IsOpen(), "allnil", e1 == nil && e2 == nil && e3 == nil, "remsame", rem2 == rem)
 		return
 	case "registry":
 		runRegistry(&c, w)
@@ -130,6 +135,14 @@ func runApCase(raw json.RawMessage, w *TraceWriter) {
 				errs = cls(t.Close())
 			case "remaining":
 				ret = int(t.RemainingBytes())
+			case "flush":
+				errs = cls(t.Flush(context.Background()))
+			case "open":
+				errs = cls(t.Open())
+			case "isopen":
+				if t.IsOpen() {
+					ret = 1
+				}
 			}
 		}()
 		arg := op.Arg
@@ -234,7 +247,7 @@ func genApCases(c *Ctx) []json.RawMessage {
 		alpha = append(alpha, ApOp{H: h, Op: "write", Arg: []int{}}, ApOp{H: h, Op: "write", Arg: []int{7}}, ApOp{H: h, Op: "write", Arg: []int{8, 9}},
 			ApOp{H: h, Op: "read", N: 0}, ApOp{H: h, Op: "read", N: 1}, ApOp{H: h, Op: "read", N: 2}, ApOp{H: h, Op: "reset"})
 	}
-	alpha = append(alpha, ApOp{H: "T", Op: "close"}, ApOp{H: "T", Op: "remaining"})
+	alpha = append(alpha, ApOp{H: "T", Op: "close"}, ApOp{H: "T", Op: "remaining"}, ApOp{H: "T", Op: "flush"})
 	maxLen := c.Pick(3, 4)
 	var rec func(prefix []ApOp)
 	rec = func(prefix []ApOp) {
@@ -292,7 +305,8 @@ func genApCases(c *Ctx) []json.RawMessage {
 						ops = append(ops, ApOp{H: h2, Op: "reset"})
 					}
 					ops = append(ops, ApOp{H: "T", Op: "remaining"}, ApOp{H: h1, Op: "write", Arg: []int{104, 105}}, ApOp{H: h2, Op: "read", N: 5},
-						ApOp{H: h2, Op: "write", Arg: big(n/2, 5)}, ApOp{H: "T", Op: "close"}, ApOp{H: "B", Op: "read", N: 1})
+						ApOp{H: h2, Op: "write", Arg: big(n/2, 5)}, ApOp{H: "T", Op: "isopen"}, ApOp{H: "T", Op: "open"}, ApOp{H: "T", Op: "flush"},
+						ApOp{H: "T", Op: "close"}, ApOp{H: "T", Op: "isopen"}, ApOp{H: "B", Op: "read", N: 1})
 					out = append(out, mustJSON(ApCase{Mode: "buffer", Via: []string{"NewBufferTransport", "NewDefaultTransport"}[n%2], Ops: ops}))
 				}
 			}
